@@ -110,6 +110,7 @@ type c19World struct {
 	seen  []wire.Message                 // everything the node has sent, in order
 	ticks     int
 	pingEvery int // the peer pings every so many ticks (0: never)
+	fetcher *vkFetcher
 }
 
 // connectPeer prepares the peer's end of the NEXT connection the node will open.
@@ -216,6 +217,7 @@ func c19NewWorld(ctx context.Context) (*c19World, *vkStore, config.Config) {
 
 func (w *c19World) newNode(cfg config.Config, store *vkStore) {
 	f := &vkFetcher{}
+	w.fetcher = f
 	w.node = NewNode(cfg, store, f, f)
 	w.rec = &vkRecorder{}
 	w.node.RegisterHandler(w.rec)
